@@ -467,10 +467,11 @@ def oracle(case_obs: dict) -> list[str]:
         injected = case["fail_at"] is not None and (o["outcome"] == "fail:" + case["fail_at"] or (
             case["fail_at"].startswith("IO:") and o["outcome"] == "fail:IO"))
         if str(case["fail_at"]).startswith("Write#") and o["outcome"] == "ok" and case["existing"] in (
-                "different", "coredifferent"):
+                "different", "coredifferent", "partial", "otherspec", "empty"):
             fails.append("existing output differs from what would be generated but generation did not raise")
         if case["fail_at"] is None or (case["fail_at"].startswith("IO:") and o["outcome"] != "fail:IO"):
-            if case["existing"] in ("different", "coredifferent") and o["outcome"] not in ("diff", "invalid"):
+            if case["existing"] in ("different", "coredifferent", "partial", "otherspec", "empty") \
+                    and o["outcome"] not in ("diff", "invalid"):
                 fails.append("existing output differs from what would be generated but generation did not raise")
             if case["existing"] == "equal" and case["core"] is None and not case["post"] and o["outcome"] != "ok":
                 fails.append("existing output matches what would be generated but generation raised")
